@@ -7,6 +7,7 @@ package shapes
 
 import (
 	"fmt"
+	"math"
 	"reflect"
 	"runtime/debug"
 	"strings"
@@ -61,6 +62,9 @@ func init() {
 type ForeignA uint32
 type ForeignB [5]byte
 type ForeignC struct{ X, Y int64 }
+
+// NegZero: putting -0 over +0 (or back) must change the sign bit although the two compare equal.
+var NegZero, NegZero32 = math.Copysign(0, -1), float32(math.Copysign(0, -1))
 
 // IntA, IntB are targets for pointer-typed field values.
 var IntA, IntB = 11, 22
@@ -182,6 +186,15 @@ func MustPanic(c *Ctx, sig, label string, f func()) {
 	}
 }
 
+// eq compares two focus values: DeepEqual, except for function values (DeepEqual calls two non-nil functions
+// different even when they are the same function), which are compared by their bits.
+func eq[A any](a, b A) bool {
+	if reflect.TypeOf(&a).Elem().Kind() == reflect.Func {
+		return string(raw(&a)) == string(raw(&b))
+	}
+	return reflect.DeepEqual(a, b)
+}
+
 // Lens checks a lens against the selector sel on every ordered pair of values.
 func Lens[S, A any](c *Ctx, label string, lens optics.Lens[S, A], sel func(*S) *A, vals []A, fill func(*S, int)) {
 	for i := range vals {
@@ -189,7 +202,7 @@ func Lens[S, A any](c *Ctx, label string, lens optics.Lens[S, A], sel func(*S) *
 			c.R.Evaluations++
 			subj := newBox(fill, i)
 			twin := twinOf(subj)
-			if g := lens.Get(&subj.v); !reflect.DeepEqual(g, *sel(&subj.v)) {
+			if g := lens.Get(&subj.v); !eq(g, *sel(&subj.v)) {
 				c.Viol("get", "%s: Get = %v, the field holds %v", label, g, *sel(&subj.v))
 				return
 			}
@@ -203,7 +216,7 @@ func Lens[S, A any](c *Ctx, label string, lens optics.Lens[S, A], sel func(*S) *
 				c.Viol("put-bytes", "%s: Put(%v) over %v: %s", label, vals[j], vals[i], d)
 				return
 			}
-			if g := lens.Get(&subj.v); !reflect.DeepEqual(g, vals[j]) {
+			if g := lens.Get(&subj.v); !eq(g, vals[j]) {
 				c.Viol("putget", "%s: Get after Put(%v) = %v", label, vals[j], g)
 				return
 			}
@@ -229,7 +242,7 @@ func Reflector[S, A any](c *Ctx, label string, r optics.Reflector[A], sel func(*
 			c.R.Evaluations++
 			subj := newBox(fill, i)
 			twin := twinOf(subj)
-			if g := r.Gett(&subj.v); !reflect.DeepEqual(g, *sel(&subj.v)) {
+			if g := r.Gett(&subj.v); !eq(g, *sel(&subj.v)) {
 				c.Viol("gett", "%s: Gett = %v, the field holds %v", label, g, *sel(&subj.v))
 				return
 			}
@@ -594,6 +607,237 @@ func init() {
 				type T struct{ A, B, C int64 }
 				MustPanic(c, "fortype-absent", "hseq.ForType with another local type that prints like a field's type", func() { hseq.ForType[T](hseq.New[S]()) })
 			}
+		}
+	}})
+}
+
+// ---- U1: fields of unnamed types -------------------------------------------------
+// For unnamed types assignability is wider than identity (chan int is assignable to <-chan int, every type to any,
+// *U1Impl to interface{ M() int }, []int32 to a named slice type and back), and Name() / PkgPath() are empty for
+// all of them: a derivation or lookup that compares anything less than type identity goes wrong exactly here.
+
+type U1Impl struct{ V int }
+
+func (*U1Impl) M() int { return 1 }
+
+type U1Ints []int32
+type U1Pair struct {
+	X int8
+	Y int32
+}
+type U1Box[T any] struct{ V T }
+
+type U1 struct {
+	Pre int8
+	C   chan int
+	Ro  <-chan int
+	P   *U1Impl
+	I   interface{ M() int }
+	E   any
+	Sl  []int32
+	Ar  [2]int16
+	Mp  map[string]int
+	Fn  func(int) int
+	St  struct {
+		X int8
+		Y int32
+	}
+	B32  U1Box[int32]
+	B64  U1Box[int64]
+	Post int8
+}
+
+var u1c1, u1c2 = make(chan int), make(chan int, 1)
+var u1p1, u1p2 = &U1Impl{1}, &U1Impl{2}
+var u1m1, u1m2 = map[string]int{"a": 1}, map[string]int{}
+var u1f1, u1f2 = func(x int) int { return x + 1 }, func(x int) int { return x * 2 }
+
+func fillU1(p *U1, k int) {
+	k %= 3
+	p.Pre, p.Post = int8(k+1), int8(-k-1)
+	p.C = []chan int{nil, u1c1, u1c2}[k]
+	p.Ro = []<-chan int{u1c2, nil, u1c1}[k]
+	p.P = []*U1Impl{u1p1, u1p2, nil}[k]
+	p.I = []interface{ M() int }{nil, u1p1, u1p2}[k]
+	p.E = []any{[]int{1}, nil, "s"}[k]
+	p.Sl = [][]int32{nil, {1}, {1, 2, 3}}[k]
+	p.Ar = [][2]int16{{1, 2}, {}, {-1, 30000}}[k]
+	p.Mp = []map[string]int{u1m1, nil, u1m2}[k]
+	p.Fn = []func(int) int{u1f1, nil, u1f2}[k]
+	p.St.X, p.St.Y = int8(k), int32(k)<<20
+	p.B32, p.B64 = U1Box[int32]{int32(k) + 5}, U1Box[int64]{int64(k) << 40}
+}
+
+const u1Src = `type U1 struct {
+	Pre int8
+	C chan int
+	Ro <-chan int
+	P *U1Impl
+	I interface{ M() int }
+	E any
+	Sl []int32
+	Ar [2]int16
+	Mp map[string]int
+	Fn func(int) int
+	St struct{ X int8; Y int32 }
+	B32 U1Box[int32]
+	B64 U1Box[int64]
+	Post int8
+}
+type U1Ints []int32; type U1Pair struct{ X int8; Y int32 }; type U1Box[T any] struct{ V T }; func (*U1Impl) M() int`
+
+func u1Lens[A any](c *Ctx, name string, sel func(*U1) *A, vals []A, byType bool) {
+	lbl := fmt.Sprintf("ForProduct1[U1, %v](%q)", reflect.TypeOf(new(A)).Elem(), name)
+	Derive(c, lbl, func() {
+		Lens(c, lbl, optics.ForProduct1[U1, A](name), sel, vals, fillU1)
+		Reflector(c, "ForSpectrum1"+lbl[11:], optics.ForSpectrum1[U1, A](name), sel, vals, fillU1)
+	})
+	if byType {
+		lbl := fmt.Sprintf("ForProduct1[U1, %v]()", reflect.TypeOf(new(A)).Elem())
+		Derive(c, lbl, func() {
+			Lens(c, lbl, optics.ForProduct1[U1, A](), sel, vals, fillU1)
+			Reflector(c, "ForSpectrum1"+lbl[11:], optics.ForSpectrum1[U1, A](), sel, vals, fillU1)
+		})
+	}
+}
+
+// u1Refuse: the field called name does not have type A (although a value of its type may be assignable to A).
+func u1Refuse[A any](c *Ctx, name string) {
+	t := reflect.TypeOf(new(A)).Elem()
+	MustPanic(c, "name-type-mismatch", fmt.Sprintf("ForProduct1[U1, %v](%q): the field %s has another type (at most assignable to it)", t, name, name), func() { optics.ForProduct1[U1, A](name) })
+	MustPanic(c, "name-type-mismatch", fmt.Sprintf("ForSpectrum1[U1, %v](%q): the field %s has another type (at most assignable to it)", t, name, name), func() { optics.ForSpectrum1[U1, A](name) })
+}
+
+func u1Absent[A any](c *Ctx) {
+	t := reflect.TypeOf(new(A)).Elem()
+	if c.Is("C02") {
+		MustPanic(c, "type-absent", fmt.Sprintf("ForProduct1[U1, %v](): no field has that type (some fields are assignable to it)", t), func() { optics.ForProduct1[U1, A]() })
+		MustPanic(c, "type-absent", fmt.Sprintf("ForSpectrum1[U1, %v](): no field has that type (some fields are assignable to it)", t), func() { optics.ForSpectrum1[U1, A]() })
+	}
+	if c.Is("C03") {
+		MustPanic(c, "fortype-absent", fmt.Sprintf("hseq.ForType[%v]: no field of U1 has that type (some fields are assignable to it)", t), func() { hseq.ForType[A](hseq.New[U1]()) })
+	}
+}
+
+func u1Type[A any](c *Ctx, id int) {
+	t := reflect.TypeOf(new(A)).Elem()
+	TypeIs(c, fmt.Sprintf("ForType[%v] on U1", t), func() hseq.Seq[U1] { return hseq.Seq[U1]{hseq.ForType[A](hseq.New[U1]())} }, []int{id})
+	TypeIs(c, fmt.Sprintf("New1[U1, %v]", t), func() hseq.Seq[U1] { return hseq.New1[U1, A]() }, []int{id})
+}
+
+func init() {
+	Register(Shape{Name: "U1", Family: "unnamed", Source: u1Src, Run: func(c *Ctx) {
+		type ifM = interface{ M() int }
+		type anonSt = struct {
+			X int8
+			Y int32
+		}
+		if c.Is("C01") || c.Is("C02") {
+			u1Lens(c, "C", func(p *U1) *chan int { return &p.C }, []chan int{nil, u1c1, u1c2}, true)
+			u1Lens(c, "Ro", func(p *U1) *<-chan int { return &p.Ro }, []<-chan int{nil, u1c1, u1c2}, true)
+			u1Lens(c, "P", func(p *U1) **U1Impl { return &p.P }, []*U1Impl{nil, u1p1, u1p2}, true)
+			u1Lens(c, "I", func(p *U1) *ifM { return &p.I }, []ifM{nil, u1p1, u1p2}, true)
+			u1Lens(c, "E", func(p *U1) *any { return &p.E }, []any{nil, []int{1}, u1p1, 0.5}, true)
+			u1Lens(c, "Sl", func(p *U1) *[]int32 { return &p.Sl }, [][]int32{nil, {}, {7, 8}}, true)
+			u1Lens(c, "Ar", func(p *U1) *[2]int16 { return &p.Ar }, [][2]int16{{}, {1, 2}, {-1, -2}}, true)
+			u1Lens(c, "Mp", func(p *U1) *map[string]int { return &p.Mp }, []map[string]int{nil, u1m1, u1m2}, true)
+			u1Lens(c, "Fn", func(p *U1) *func(int) int { return &p.Fn }, []func(int) int{nil, u1f1, u1f2}, true)
+			u1Lens(c, "St", func(p *U1) *anonSt { return &p.St }, []anonSt{{}, {1, 2}, {-1, 1 << 30}}, true)
+			u1Lens(c, "B32", func(p *U1) *U1Box[int32] { return &p.B32 }, []U1Box[int32]{{}, {1}, {-1}}, true)
+			u1Lens(c, "B64", func(p *U1) *U1Box[int64] { return &p.B64 }, []U1Box[int64]{{}, {1}, {-1 << 40}}, true)
+			u1Lens(c, "Pre", func(p *U1) *int8 { return &p.Pre }, []int8{0, 1, -1}, true)
+			u1Lens(c, "Post", func(p *U1) *int8 { return &p.Post }, []int8{0, 1, -1}, false)
+		}
+		if c.Is("C02") {
+			u1Refuse[<-chan int](c, "C")
+			u1Refuse[chan<- int](c, "C")
+			u1Refuse[chan int](c, "Ro")
+			u1Refuse[chan int64](c, "C")
+			u1Refuse[any](c, "C")
+			u1Refuse[any](c, "P")
+			u1Refuse[ifM](c, "P")
+			u1Refuse[*U1Pair](c, "P")
+			u1Refuse[*int](c, "P")
+			u1Refuse[any](c, "I")
+			u1Refuse[interface {
+				M() int
+				N()
+			}](c, "I")
+			u1Refuse[ifM](c, "E")
+			u1Refuse[error](c, "E")
+			u1Refuse[U1Ints](c, "Sl")
+			u1Refuse[[]int64](c, "Sl")
+			u1Refuse[[]uint32](c, "Sl")
+			u1Refuse[[3]int16](c, "Ar")
+			u1Refuse[[2]uint16](c, "Ar")
+			u1Refuse[[4]int8](c, "Ar")
+			u1Refuse[map[string]int64](c, "Mp")
+			u1Refuse[map[any]int](c, "Mp")
+			u1Refuse[func(int) int64](c, "Fn")
+			u1Refuse[func(int)](c, "Fn")
+			u1Refuse[func(...int) int](c, "Fn")
+			u1Refuse[U1Pair](c, "St")
+			u1Refuse[struct {
+				X int8
+				Y int64
+			}](c, "St")
+			u1Refuse[struct {
+				X int8
+				Z int32
+			}](c, "St")
+			u1Refuse[U1Box[int64]](c, "B32")
+			u1Refuse[U1Box[int32]](c, "B64")
+			u1Refuse[U1Box[uint32]](c, "B32")
+			u1Refuse[int16](c, "Pre")
+			u1Refuse[uint8](c, "Pre")
+		}
+		if c.Is("C02") || c.Is("C03") {
+			u1Absent[chan<- int](c)
+			u1Absent[error](c)
+			u1Absent[U1Ints](c)
+			u1Absent[U1Pair](c)
+			u1Absent[*U1Pair](c)
+			u1Absent[[]int64](c)
+			u1Absent[[3]int16](c)
+			u1Absent[U1Box[uint32]](c)
+			u1Absent[interface {
+				M() int
+				N()
+			}](c)
+			u1Absent[fmt.Stringer](c)
+			u1Absent[func(int)](c)
+			u1Absent[map[string]any](c)
+		}
+		if c.Is("C03") {
+			Listing(c, []E[U1]{
+				{Name: "Pre", Key: "Pre", Type: reflect.TypeOf(int8(0)), Addr: func(p *U1) unsafe.Pointer { return unsafe.Pointer(&p.Pre) }},
+				{Name: "C", Key: "C", Type: reflect.TypeOf((*chan int)(nil)).Elem(), Addr: func(p *U1) unsafe.Pointer { return unsafe.Pointer(&p.C) }},
+				{Name: "Ro", Key: "Ro", Type: reflect.TypeOf((*<-chan int)(nil)).Elem(), Addr: func(p *U1) unsafe.Pointer { return unsafe.Pointer(&p.Ro) }},
+				{Name: "P", Key: "P", Type: reflect.TypeOf((**U1Impl)(nil)).Elem(), Addr: func(p *U1) unsafe.Pointer { return unsafe.Pointer(&p.P) }},
+				{Name: "I", Key: "I", Type: reflect.TypeOf((*ifM)(nil)).Elem(), Addr: func(p *U1) unsafe.Pointer { return unsafe.Pointer(&p.I) }},
+				{Name: "E", Key: "E", Type: reflect.TypeOf((*any)(nil)).Elem(), Addr: func(p *U1) unsafe.Pointer { return unsafe.Pointer(&p.E) }},
+				{Name: "Sl", Key: "Sl", Type: reflect.TypeOf([]int32(nil)), Addr: func(p *U1) unsafe.Pointer { return unsafe.Pointer(&p.Sl) }},
+				{Name: "Ar", Key: "Ar", Type: reflect.TypeOf([2]int16{}), Addr: func(p *U1) unsafe.Pointer { return unsafe.Pointer(&p.Ar) }},
+				{Name: "Mp", Key: "Mp", Type: reflect.TypeOf(map[string]int(nil)), Addr: func(p *U1) unsafe.Pointer { return unsafe.Pointer(&p.Mp) }},
+				{Name: "Fn", Key: "Fn", Type: reflect.TypeOf((func(int) int)(nil)), Addr: func(p *U1) unsafe.Pointer { return unsafe.Pointer(&p.Fn) }},
+				{Name: "St", Key: "St", Type: reflect.TypeOf(anonSt{}), Addr: func(p *U1) unsafe.Pointer { return unsafe.Pointer(&p.St) }},
+				{Name: "B32", Key: "B32", Type: reflect.TypeOf(U1Box[int32]{}), Addr: func(p *U1) unsafe.Pointer { return unsafe.Pointer(&p.B32) }},
+				{Name: "B64", Key: "B64", Type: reflect.TypeOf(U1Box[int64]{}), Addr: func(p *U1) unsafe.Pointer { return unsafe.Pointer(&p.B64) }},
+				{Name: "Post", Key: "Post", Type: reflect.TypeOf(int8(0)), Addr: func(p *U1) unsafe.Pointer { return unsafe.Pointer(&p.Post) }},
+			})
+			u1Type[int8](c, 0)
+			u1Type[chan int](c, 1)
+			u1Type[<-chan int](c, 2)
+			u1Type[*U1Impl](c, 3)
+			u1Type[ifM](c, 4)
+			u1Type[any](c, 5)
+			u1Type[[]int32](c, 6)
+			u1Type[[2]int16](c, 7)
+			u1Type[map[string]int](c, 8)
+			u1Type[func(int) int](c, 9)
+			u1Type[anonSt](c, 10)
+			u1Type[U1Box[int32]](c, 11)
+			u1Type[U1Box[int64]](c, 12)
 		}
 	}})
 }
